@@ -78,6 +78,10 @@ CHECKS = {
             'For every scenario inside the bounds, on both servers: each session receives only its own messages, without duplicates, in send order, all of them when the client keeps reading; '
             'a poll answered while something is queued returns all of it; polls started after the upgrade began return only NOOP; after a failed handshake polling delivers the backlog.',
             'Trusted: CrossHair (selector enumeration), z3, the simulated environment (cooperative schedules).', '§3 C03'),
+    'C05': (SIM + '; solver-enumerated bounded histories over an alphabet of traffic and end causes, three transport modes, handler exceptions of several types (incl. TypeError, legacy one-argument disconnect handler), connect outcomes; regular-language monitor on the handler log',
+            'For every history inside the bounds, on both servers: connect first and once; exactly one disconnect naming the first end cause; no event for the session afterwards, '
+            'including for requests and frames injected later; nothing at all after a rejected connect; handler exceptions change neither the protocol nor the other session.',
+            'Trusted: CrossHair (selector enumeration), z3, the simulated environment. Known finding F6 waived for histories in which the threaded disconnect() is blocked.', '§3 C05'),
 }
 
 NOT_BUILT = 'check not built yet in this round (see DESIGN.md §8 build order); not claimed until it runs'
